@@ -13,6 +13,7 @@ import (
 	"github.com/scrapli/scrapligo/driver/options"
 	"github.com/scrapli/scrapligo/logging"
 	"github.com/scrapli/scrapligo/transport"
+	"github.com/scrapli/scrapligo/util"
 
 	"verifgo/vlib"
 )
@@ -31,6 +32,7 @@ type c15case struct {
 	cuts    []int
 	gaps    []int // milliseconds slept before segment i
 	tms     int   // options.WithTimeoutSocket in milliseconds
+	rs      int   // options.WithTransportReadSize (0 = leave the default, 8192)
 	tail    []byte
 	public  bool // run against the loopback server (all cases run through the internal tie)
 }
@@ -60,7 +62,7 @@ func strInts(s string) []int {
 
 // line is the replayable case; the Lean driver is asked with the first three fields only.
 func (cs *c15case) line() string {
-	return fmt.Sprintf("c15 open %s cuts=%s gaps=%s T=%d tail=%s", vlib.Hex(cs.opening), intsStr(cs.cuts), intsStr(cs.gaps), cs.tms, vlib.Hex(cs.tail))
+	return fmt.Sprintf("c15 open %s cuts=%s gaps=%s T=%d R=%d tail=%s", vlib.Hex(cs.opening), intsStr(cs.cuts), intsStr(cs.gaps), cs.tms, cs.rs, vlib.Hex(cs.tail))
 }
 
 func c15parse(line string) (*c15case, error) {
@@ -81,6 +83,8 @@ func c15parse(line string) (*c15case, error) {
 			cs.gaps = strInts(kv[5:])
 		case strings.HasPrefix(kv, "T="):
 			cs.tms, _ = strconv.Atoi(kv[2:])
+		case strings.HasPrefix(kv, "R="):
+			cs.rs, _ = strconv.Atoi(kv[2:])
 		case strings.HasPrefix(kv, "tail="):
 			cs.tail, _ = vlib.UnHex(kv[5:])
 		}
@@ -328,8 +332,11 @@ func c15runPublic(cs *c15case, tms int, useGaps bool) (o c15obs) {
 		<-rdone
 	}()
 	l, _ := logging.NewInstance()
-	tr, err := transport.NewTransport(l, "127.0.0.1", transport.TelnetTransport,
-		options.WithPort(port), options.WithTimeoutSocket(T))
+	topts := []util.Option{options.WithPort(port), options.WithTimeoutSocket(T)}
+	if cs.rs > 0 {
+		topts = append(topts, options.WithTransportReadSize(cs.rs))
+	}
+	tr, err := transport.NewTransport(l, "127.0.0.1", transport.TelnetTransport, topts...)
 	if err != nil {
 		o.setupErr = err.Error()
 		return o
@@ -353,7 +360,7 @@ func c15runPublic(cs *c15case, tms int, useGaps bool) (o c15obs) {
 		defer close(rdDone)
 		var acc []byte
 		// bounded: a Read that keeps returning bytes the server never sent must not run away
-		for len(reads) < 256 && len(acc) <= limit {
+		for len(reads) < 4*limit && len(acc) <= limit {
 			b, err := tr.Read()
 			if len(b) > 0 {
 				reads = append(reads, append([]byte{}, b...))
@@ -446,7 +453,7 @@ func hexListFlat(s string) string { // "a,b,c" hex list -> hex of the concatenat
 
 func runC15(c *ctx) {
 	res := c.res
-	res.Rule = "openings: generated token streams (negotiations 4 verbs x option codes, two-byte commands 241-249, escaped IAC, banner text runs) and IAC-rich byte soup (truncated sequences, SB/SE, IAC+arbitrary byte; outside the property, compared with the model only); every opening goes byte by byte through the real handleControlCharResponse (overlay export, recording net.Conn); a subset is sent by a loopback TCP server in a generated segmentation with pauses to the real telnet transport (NewTransport/Open/Read, socket timeouts 160-320 ms), observing the bytes the server receives and the results of the first Reads; histories: one transport object opened 2-4 times in a row against the loopback server (previous opening complete, cut by a server hang-up or by the end of the negotiation phase at every offset of a sequence), each opening judged on its own against the fresh-object model. non-trivial = opening with at least one IAC sequence; distinct by opening bytes + segmentation"
+	res.Rule = "openings: generated token streams (negotiations 4 verbs x option codes, two-byte commands 241-249, escaped IAC, banner text runs) and IAC-rich byte soup (truncated sequences, SB/SE, IAC+arbitrary byte; outside the property, compared with the model only); every opening goes byte by byte through the real handleControlCharResponse (overlay export, recording net.Conn); a subset is sent by a loopback TCP server in a generated segmentation with pauses to the real telnet transport (NewTransport/Open/Read, socket timeouts 160-320 ms), with transport read sizes 1, 2, 7, 64, 8192 and default (openings whose data part is shorter than / equal to / one more than / several times the read size, incl. > 8192 bytes with the default), observing the bytes the server receives and the concatenation of the Reads up to the end of the post-opening text; histories: one transport object opened 2-4 times in a row against the loopback server (previous opening complete, cut by a server hang-up or by the end of the negotiation phase at every offset of a sequence), each opening judged on its own against the fresh-object model. non-trivial = opening with at least one IAC sequence; distinct by opening bytes + segmentation"
 	r := c.rng
 	var cases []*c15case
 	var hists []*c15hist
@@ -495,11 +502,64 @@ func runC15(c *ctx) {
 				cases = append(cases, cs)
 			}
 		}
+		// READ SIZE: the opening's data part shorter than / equal to / one more than / several times the
+		// transport read size, for read sizes 1, 2, 7, 64, 8192 and the default (8192), the data arriving
+		// inside the negotiation window, with negotiations before, inside and after it
+		for _, rs := range []int{1, 2, 7, 64, 8192, 0} {
+			eff := rs
+			if eff == 0 {
+				eff = 8192
+			}
+			lens := []int{eff - 1, eff, eff + 1, 3*eff + 5}
+			if eff == 8192 {
+				lens = []int{eff - 1, eff, eff + 1, 2*eff + 5}
+				if rs == 0 {
+					lens = []int{eff + 1, 2*eff + 5}
+				}
+			}
+			for _, n := range lens {
+				text := r.Bytes(n, c15Text)
+				op := []byte{c15IAC, c15DO, 3, c15IAC, c15WILL, 1}
+				op = append(op, text[:n/2]...)
+				switch r.Intn(3) {
+				case 0:
+					op = append(op, c15IAC, c15DO, 24)
+				case 1:
+					op = append(op, c15IAC, 241)
+				}
+				op = append(op, text[n/2:]...)
+				if r.Bool() {
+					op = append(op, c15IAC, c15WONT, 5)
+				}
+				cs := &c15case{class: "read-size", opening: op, public: true, rs: rs}
+				c15genSeg(r, cs)
+				// big openings: large segments, no pauses
+				if len(op) > 512 {
+					cs.cuts = nil
+					for rest := len(op); rest > 0; {
+						k := r.Range(1, 4096)
+						if k > rest {
+							k = rest
+						}
+						cs.cuts = append(cs.cuts, k)
+						rest -= k
+					}
+				}
+				if len(cs.cuts) > 24 || len(op) > 512 {
+					cs.gaps = make([]int, len(cs.cuts))
+				}
+				cs.tms = 320
+				cases = append(cases, cs)
+			}
+		}
 		nPub := c.n(800, 6000)
 		for i := 0; i < c.n(4000, 100000); i++ {
 			op, kinds := c15genOpening(r)
 			cs := &c15case{class: "structured", opening: op, public: i < nPub}
 			c15genSeg(r, cs)
+			if cs.public && r.Chance(1, 3) {
+				cs.rs = []int{1, 2, 7, 64}[r.Intn(4)]
+			}
 			if cs.public {
 				for k, v := range kinds {
 					res.Distribution["public-token:"+k] += v
@@ -624,13 +684,10 @@ func runC15(c *ctx) {
 				if gotData == l.asis.data {
 					sig = "data-swallowed-after-iac-command"
 				}
-				return "oracle", fmt.Sprintf("server sent opening %x (segments %v) then %q: the reads delivered %s before it, the opening's data is %s", cs.opening, cs.cuts, cs.tail, gotData, l.specData), sig
+				return "oracle", fmt.Sprintf("server sent opening %s (segments %s, read size %s) then %q: the reads delivered %s before it, the opening's data is %s", c15short(vlib.Hex(cs.opening)), c15short(fmt.Sprint(cs.cuts)), c15rs(cs.rs), cs.tail, c15short(gotData), c15short(l.specData)), sig
 			}
 			if vlib.Hex(o.recv) != wantRecvSpec {
 				return "oracle", fmt.Sprintf("server sent opening %x: it received %s, demanded replies %s", cs.opening, vlib.Hex(o.recv), l.specRepl), "replies-wrong"
-			}
-			if l.specData != "-" && (len(o.reads) == 0 || vlib.Hex(o.reads[0]) != l.specData) {
-				return "oracle", fmt.Sprintf("opening %x: first Read returned %x, the opening's data is %s", cs.opening, o.reads, l.specData), "first-read-wrong"
 			}
 		}
 		if o.openErr != nil {
@@ -711,6 +768,27 @@ func runC15(c *ctx) {
 		cs, l, o := cases[i], leans[i], obs[i]
 		res.Count("public:" + cs.class)
 		res.Count(fmt.Sprintf("public:timeout-socket-%dms", cs.tms))
+		res.Count("public:read-size-" + c15rs(cs.rs))
+		if cs.class == "read-size" {
+			eff := cs.rs
+			if eff == 0 {
+				eff = 8192
+			}
+			dl := 0
+			if l.specData != "-" {
+				dl = len(l.specData) / 2
+			}
+			switch {
+			case dl < eff:
+				res.Count("public:read-size:data-shorter-than-read-size")
+			case dl == eff:
+				res.Count("public:read-size:data-equal-read-size")
+			case dl == eff+1:
+				res.Count("public:read-size:data-one-more-than-read-size")
+			default:
+				res.Count("public:read-size:data-several-read-sizes")
+			}
+		}
 		res.Count(fmt.Sprintf("public:segments-%s", bucket(len(cs.cuts))))
 		res.Case("p:"+vlib.Hex(cs.opening)+intsStr(cs.cuts), bytes.IndexByte(cs.opening, c15IAC) >= 0)
 		if l.dom {
@@ -795,6 +873,21 @@ func runC15(c *ctx) {
 			}
 		}
 	}
+}
+
+// c15short abbreviates long hex strings in messages (the replay file has the full case)
+func c15short(h string) string {
+	if len(h) <= 160 {
+		return h
+	}
+	return fmt.Sprintf("%s…%s (%d chars)", h[:96], h[len(h)-32:], len(h))
+}
+
+func c15rs(rs int) string {
+	if rs == 0 {
+		return "default"
+	}
+	return strconv.Itoa(rs)
 }
 
 func bucket(n int) string {
